@@ -23,7 +23,7 @@ PROP = {
     "assumptions": [
         "atomicity of the LTS steps as read from the code (DESIGN.md Appendix A.3): atomic loads/stores/CAS, publishMu and startGate critical sections, channel operations; lifeMu is the API program counter",
         "handlers return, so every bounded join completes: the ErrCloseTimeout path (which deliberately abandons goroutines) is not modelled",
-        "transport contract as implemented by hsmsss (Start fails only before TCPUp; Stop = seal, close, join); secs1 is covered by the same connection core but its transport is not modelled separately",
+        "transport contract as implemented by hsmsss (Start fails only before TCPUp; Stop = seal, close, join); the SECS-I transport shares the connection core and is exercised by the e2e passes (seq cycles and a quarter of the random histories run secs1.New over the same rig, against a line that is held / dropped / cut but does not speak E4) but is not modelled separately",
         "environment actions (peer connect/drop, dial results, T7/linktest expiry, write errors) are enabled whenever structurally possible - a superset of real behaviours",
         "goroutine leaks, blocking bounds and panics of the running library are runtime facts observed by the e2e harness (level: proof partial); 'Close returns within closeTimeout' is REFUTED when a blocking Open holds lifeMu (known finding C10-close-blocked-by-open); a dial that never returns is outside the environment assumption (the rig caps a hanging dial at 150 ms like an OS connect timeout)",
     ],
